@@ -87,6 +87,7 @@ func checkC04(c *Ctx) {
 
 	c.Rule("C04/R6", "caches on the tidy / unit-match path are keyed by every input of the cached value (tidy cache: the unit string itself; no memo of a unit match may be keyed by one of the two units only)")
 	c.Rule("C04/R7", "in the rewrite loop a denominator token is skipped without leaving the loop and without editing")
+	c.Rule("C04/R10", "cache entries are published complete: the value handed to the unit cache's Store/LoadOrStore is not written through afterwards")
 	c.Rule("C04/R9", "recorded edits stay aligned: the loop that splices replacements into the unit at positions recorded against the original string runs from the last edit to the first, or corrects each position by the accumulated change in length")
 	c.Rule("C04/R8", "units are split into words by characters, not bytes: no unicode predicate in benchunit is applied to a lone byte widened to a rune (unless the byte was tested to be ASCII)")
 	p := mustLoad(c, loadOpts{}, "./benchfmt", "./benchunit", "./benchproc")
@@ -96,6 +97,7 @@ func checkC04(c *Ctx) {
 	c04R4(c, p)
 	c04R5(c, p)
 	c04R6(c, p)
+	c04PublishedEntriesAreComplete(c, p)
 	byteRuneRule(c, p, "C04/R8", "benchunit")
 	// R9: edits recorded against the original unit are applied back to front, or with an accumulated shift
 	nSp := 0
